@@ -58,6 +58,7 @@ public:
     AnyCellmlElementPtr convertToWeak(const AnyCellmlElementPtr &item);
     AnyCellmlElementPtr convertToShared(const AnyCellmlElementPtr &item);
 
+    void listImportSourceIdAndItem(const ImportSourcePtr &importSource, ItemList &idList);
     void listComponentIdsAndItems(const ComponentPtr &component, ItemList &idList);
     ItemList listIdsAndItems(const ModelPtr &model);
 
@@ -160,6 +161,24 @@ inline bool equals(const std::weak_ptr<T> &t, const std::weak_ptr<U> &u)
     return !t.owner_before(u) && !u.owner_before(t);
 }
 
+void Annotator::AnnotatorImpl::listImportSourceIdAndItem(const ImportSourcePtr &importSource, ItemList &idList)
+{
+    std::string id = importSource->id();
+    if (!id.empty()) {
+        // An import source can be shared by several imported entities, it must only be recorded once.
+        auto rangePair = idList.equal_range(id);
+        for (auto it = rangePair.first; it != rangePair.second; ++it) {
+            if ((it->second->type() == CellmlElementType::IMPORT)
+                && (std::any_cast<ImportSourceWeakPtr>(it->second->mPimpl->mItem).lock() == importSource)) {
+                return;
+            }
+        }
+        auto entry = AnyCellmlElement::AnyCellmlElementImpl::create();
+        entry->mPimpl->setImportSource(importSource);
+        idList.insert(std::make_pair(id, convertToWeak(entry)));
+    }
+}
+
 void Annotator::AnnotatorImpl::listComponentIdsAndItems(const ComponentPtr &component, ItemList &idList)
 {
     std::string id = component->id();
@@ -171,12 +190,7 @@ void Annotator::AnnotatorImpl::listComponentIdsAndItems(const ComponentPtr &comp
     // Imports.
     ImportSourcePtr importSource = component->importSource();
     if (importSource != nullptr) {
-        id = importSource->id();
-        if (!id.empty()) {
-            auto entry = AnyCellmlElement::AnyCellmlElementImpl::create();
-            entry->mPimpl->setImportSource(importSource);
-            idList.insert(std::make_pair(id, convertToWeak(entry)));
-        }
+        listImportSourceIdAndItem(importSource, idList);
     }
     // Component reference in encapsulation structure.
     id = component->encapsulationId();
@@ -320,13 +334,7 @@ ItemList Annotator::AnnotatorImpl::listIdsAndItems(const ModelPtr &model)
             }
         }
         if (units->isImport()) {
-            ImportSourcePtr importSource = units->importSource();
-            id = importSource->id();
-            if (!id.empty()) {
-                auto entry = AnyCellmlElement::AnyCellmlElementImpl::create();
-                entry->mPimpl->setImportSource(importSource);
-                idList.insert(std::make_pair(id, convertToWeak(entry)));
-            }
+            listImportSourceIdAndItem(units->importSource(), idList);
         }
     }
 
